@@ -369,25 +369,32 @@ def run_parallel(args, jobs, deadline):
                 again.append((a, pr.exitcode))  # the process ended without reporting (killed by a limit, say)
             rd.close()
             pr.join(30)
+    # once more, each in a fresh process (never in this one: what ended the worker - the interpreter killed by a memory
+    # limit, a crash in C code - would end the whole check), all of them side by side under one deadline; a shard that
+    # is lost twice is reported as a finding of its own
+    retry = {}
     for a, code in again:
-        # once more, in a fresh process (never in this one: what ended the worker - the interpreter killed by a memory
-        # limit, a crash in C code - would end the whole check); a second death is reported as a finding of its own
-        print(f"note: shard {a[1]} gave no result from its worker process (exit code {code}); running it again", file=sys.stderr, flush=True)
+        print(f"note: shard {a[1]} gave no result from its worker process ({code}); running it again", file=sys.stderr, flush=True)
         rd, wr = ctx.Pipe(duplex=False)
-        pr = ctx.Process(target=_shard_child, args=(a[:4] + (time.time() + 600,), wr), daemon=True)
+        pr = ctx.Process(target=_shard_child, args=(a[:4] + (time.time() + RETRY_WAIT - 120,), wr), daemon=True)
         pr.start()
         wr.close()
-        got = None
-        if wait([rd], timeout=RETRY_WAIT):
+        retry[rd] = (pr, a, code)
+    end = time.time() + RETRY_WAIT
+    while retry and time.time() < end:
+        for rd in wait(list(retry), timeout=min(30, max(0.1, end - time.time()))):
+            pr, a, code = retry.pop(rd)
             try:
-                got = rd.recv()
+                results.append(rd.recv())
             except (EOFError, OSError):
-                got = None
-        if got is None:
-            pr.kill()
-        pr.join(30)
-        rd.close()
-        results.append(got if got is not None else {"shard": a[1], "died": pr.exitcode if pr.exitcode is not None else code})
+                pr.join(30)
+                results.append({"shard": a[1], "died": pr.exitcode if pr.exitcode is not None else code})
+            rd.close()
+            pr.join(30)
+    for rd, (pr, a, code) in retry.items():
+        pr.kill()
+        pr.join(10)
+        results.append({"shard": a[1], "died": "silent twice"})
     return results
 
 
